@@ -133,7 +133,7 @@ macro_rules! for_each_shared {
 }
 
 pub fn run(a: &Args, rep: &mut Report) {
-    let n: u64 = if a.thorough() { 600_000 } else { 20_000 };
+    let n: u64 = if a.thorough() { 600_000 } else { 80_000 };
     macro_rules! m {
         ($t:ty) => {
             run_type::<$t>(a, rep, n)
